@@ -19,15 +19,8 @@ func tg(h uint64, kept, total int, discovered bool) loop.T {
 func loopConfigs(thorough bool, faults bool) []*loop.Config {
 	var out []*loop.Config
 	bw, bf := 1, 0
-	if thorough {
-		bw = 2
-	}
 	if faults {
-		bw = 0
-		bf = 1
-		if thorough {
-			bf = 2
-		}
+		bw, bf = 0, 1
 	}
 	// quick keeps the searches whose state spaces close within the per-change budget; thorough adds the rest
 	add := func(inQuick bool, name string, opt loop.Opt, ts []loop.T, shards []loop.Seed) {
@@ -60,6 +53,17 @@ func loopConfigs(thorough bool, faults bool) []*loop.Config {
 			}
 			add(false, "orphan-in-transfer/"+tag, o, ab, []loop.Seed{{1: "in_transfer"}, {2: ""}})
 			add(false, "spread-3-shards/"+tag, o, ab, []loop.Seed{{1: ""}, {2: ""}, {}})
+		}
+	}
+	if thorough {
+		// a budget of two on the small configurations
+		o := loop.Opt{MaxHead: 0, MaxProc: 100, MaxShard: 4, MinShard: 0, IdleSec: 0}
+		for _, c2 := range []*loop.Config{
+			{Name: "fresh-1-shard/budget-2", Opt: o, Targets: ab, Shards: []loop.Seed{{}}},
+			{Name: "pending-transfer/budget-2", Opt: o, Targets: ab, Shards: []loop.Seed{{1: "in_transfer", 2: ""}, {1: ""}}},
+		} {
+			c2.BudgetW, c2.BudgetF, c2.DownAsFault = 2*bw, 2*bf, faults
+			out = append(out, c2)
 		}
 	}
 	if thorough && !faults {
@@ -103,7 +107,7 @@ func runLoopConfigs(c *chk.Ctx, prop string, cfgs []*loop.Config, handover bool)
 	defer os.RemoveAll(dir)
 	p := loopParams{prop: prop, stateCap: 60000, maxRounds: 12, handover: handover}
 	if c.Thorough() {
-		p.stateCap = 400000
+		p.stateCap = 150000
 	}
 	nkids := runtime.NumCPU()
 	if c.Parts > 1 {
